@@ -201,14 +201,14 @@ pub fn c01_h_spaces(tier: Tier) -> Vec<Space> {
         random_seq_space(
             "H.seq.random",
             cfg.clone(),
-            if tier == Tier::Quick { 20_000 } else { 400_000 },
+            if tier == Tier::Quick { 60_000 } else { 2_000_000 },
             false,
             Case::H,
         ),
         random_seq_space(
             "H.seq.random.write-error",
             cfg,
-            if tier == Tier::Quick { 4_000 } else { 60_000 },
+            if tier == Tier::Quick { 12_000 } else { 300_000 },
             true,
             Case::H,
         ),
@@ -481,7 +481,7 @@ pub fn c02_h_spaces(tier: Tier) -> Vec<Space> {
     {
         let mut st = streams.clone();
         st.extend(c02_big_streams());
-        let n = if tier == Tier::Quick { 6_000 } else { 200_000 };
+        let n = if tier == Tier::Quick { 20_000 } else { 1_000_000 };
         spaces.push(Space {
             name: "H.cut.random",
             size: n,
@@ -663,7 +663,7 @@ pub fn c03_h_spaces(tier: Tier) -> Vec<Space> {
     }
     // seeded random beyond
     {
-        let n = if tier == Tier::Quick { 10_000 } else { 300_000 };
+        let n = if tier == Tier::Quick { 30_000 } else { 1_000_000 };
         let (configs, methods, params) = (configs, methods, params);
         spaces.push(Space {
             name: "H.route.random",
@@ -778,7 +778,7 @@ pub fn c04_h_spaces(tier: Tier) -> Vec<Space> {
     }
     // random sequences rich in oneway requests
     {
-        let n = if tier == Tier::Quick { 10_000 } else { 300_000 };
+        let n = if tier == Tier::Quick { 30_000 } else { 1_000_000 };
         let all = alphabet::full();
         spaces.push(Space {
             name: "H.oneway.random",
@@ -857,7 +857,7 @@ pub fn c05_h_spaces(tier: Tier) -> Vec<Space> {
         });
     }
     {
-        let n = if tier == Tier::Quick { 6_000 } else { 150_000 };
+        let n = if tier == Tier::Quick { 20_000 } else { 600_000 };
         spaces.push(Space {
             name: "H.script.random",
             size: n,
@@ -1147,7 +1147,7 @@ pub fn c06_h_spaces(tier: Tier) -> Vec<Space> {
     }
     // random byte strings and random multi-byte mutations
     {
-        let n = if tier == Tier::Quick { 20_000 } else { 500_000 };
+        let n = if tier == Tier::Quick { 60_000 } else { 2_000_000 };
         let (cfg, victims) = (cfg.clone(), victims.clone());
         spaces.push(Space {
             name: "H.malformed.random",
